@@ -10,6 +10,7 @@ import (
 	"time"
 
 	"github.com/ja7ad/otp"
+	"github.com/ja7ad/otp/verifharness/ev"
 	"github.com/ja7ad/otp/verifharness/irt"
 	"github.com/ja7ad/otp/verifharness/ref"
 )
@@ -35,7 +36,18 @@ func shortShape() shape {
 func sortedSuites() string {
 	l := otp.ListSuites()
 	sort.Strings(l)
-	return fmt.Sprintf("%d:%016x", len(l), irt.HashValue(l))
+	return fmt.Sprintf("%d:%016x", len(l), ev.H(strings.Join(l, "|")))
+}
+
+// registrySuites is the reference answer of ListSuites, read from the registry through the
+// verif hook (NOT through ListSuites: building the references must not warm up the library).
+func registrySuites() string {
+	var l []string
+	for n := range otp.VerifKnownSuites() {
+		l = append(l, n)
+	}
+	sort.Strings(l)
+	return fmt.Sprintf("%d:%016x", len(l), ev.H(strings.Join(l, "|")))
 }
 
 // buildOps constructs the alphabet; reference answers are computed once, up front, by the
@@ -123,7 +135,7 @@ func buildOps() []hop {
 		rs, _ := ref.ParseSuite(n)
 		ops = append(ops, hop{fmt.Sprintf("suite-parse-%d", k), suiteObs(n), shapeOfRef(rs).sig() + "|" + n})
 	}
-	ops = append(ops, hop{"list-suites", func() (string, []string) { return sortedSuites(), nil }, sortedSuites()})
+	ops = append(ops, hop{"list-suites", func() (string, []string) { return sortedSuites(), nil }, registrySuites()})
 	// the rest of the API: anything lazily built, cached or shared in these functions is state too
 	urlOp := func(name, kind string, up otp.URLParam) {
 		ops = append(ops, hop{name, func() (string, []string) {
